@@ -418,6 +418,8 @@ def rule_c(ctx, cone=None, rid="C03.c", floor=6, scope="dispatch"):
 
 
 def run(ctx):
+    from .. import fixtures
+    ctx.guarded("C03.FX", lambda c: fixtures.run(c, ['effects', 'loops']))
     ctx.guarded("C03.a", rule_a)
     ctx.guarded("C03.b", rule_b)
     ctx.guarded("C03.c", rule_c)
